@@ -41,7 +41,7 @@ def _case(draw, unit):
         cap = 160                     # occasionally far beyond the usual sizes
     return {'biort': b, 'qshift': q, 'J': J,
             'size': [draw(dtu.size_strategy(cap)), draw(dtu.size_strategy(cap))],
-            'N': draw(st.sampled_from([1, 1, 2, 3])), 'C': draw(st.sampled_from([1, 2, 3, 3, 7])),
+            'N': draw(st.sampled_from([1, 1, 2, 3])), 'C': draw(st.sampled_from([1, 2, 3, 3, 7, 33])),
             'dtype': draw(st.sampled_from(['f64', 'f64', 'f64', 'f32'])),
             'filt_form': draw(st.sampled_from(['names', 'names', 'names', 'tuples'])),
             'reused': draw(st.integers(0, 2)) == 0, 'other_precision_first': draw(st.integers(0, 3)) == 0, 'ctx': draw(st.sampled_from(core.GRAD_CTXS)),
@@ -145,6 +145,7 @@ def _run_case(case):
     if not ok:
         return r.fail(out.bucket, 'forward raised on dense input: %s' % out)
     yl, yh = out
+    snap_d = dwtu.snapshot_out(out)
     if (o_dim, ri_dim) != (2, -1):
         exp6 = None
         for h in yh:
@@ -178,6 +179,8 @@ def _run_case(case):
     got3 = dtu.lib_flat(out3[0], to_default(out3[1]))
     if got3.shape != got.shape or not core.close(got3, got, (4 * core.EPS32 if f32 else 1e-13) * max(g * core.maxabs(x), 1e-300))[0]:
         r.fail('depends_on_autograd_recording', 'coefficients differ between a plain call and a call whose input requires grad')
+    lib(fwd_d, torch.tensor(x[..., ::-1].copy() * 0.5 + 1.0, dtype=tdt))
+    dwtu.returned_intact(r, out, snap_d, 'DTCWTForward')
     return r
 
 
